@@ -43,7 +43,7 @@ ID = "C10"
 LEAN_TARGETS = ["RV.C10.Props", "RV.C10.Audit"]
 AUDIT = "RV/C10/Audit.lean"
 DRIVER = "drv_c10"
-CASES = {"quick": 1500, "thorough": 40000, "search": 20000}
+CASES = {"quick": 3000, "thorough": 60000, "search": 20000}
 RULE = ("random update requests (1-4 operations: INSERT/DELETE DATA, DELETE WHERE, DELETE/INSERT..WHERE with WITH / USING / "
         "USING NAMED / GRAPH templates and patterns, CLEAR, DROP, ADD, MOVE, COPY) over datasets with 0-3 named graphs "
         "(one possibly registered-but-empty, one missing), through Graph / ConjunctiveGraph / Dataset with the union "
@@ -222,10 +222,11 @@ def spec_where(where, flt, dflt, named):
     return out
 
 
-def spec_instantiate(template, mu, default_target, fresh):
+def spec_instantiate(template, mu, default_target, fresh, info=None):
     """Dataset(QuadPattern, μ): quads with an unbound variable or an illegal term are left out;
     blank-node labels are replaced through `fresh` (one new node per label for this μ)."""
     out, bmap = set(), {}
+    info = info if info is not None else {}
     for q in template:
         r = []
         for x in q[:3]:
@@ -243,10 +244,12 @@ def spec_instantiate(template, mu, default_target, fresh):
         elif kind(g) == "v":
             g = mu.get(g)
         if None in r or g is None:
+            info["skip_unbound"] = info.get("skip_unbound", 0) + 1
             continue
         if g != 0 and kind(g) == "b":
             raise Unspecified()
         if kind(r[0]) == "l" or kind(r[1]) != "i" or (g != 0 and kind(g) != "i"):
+            info["skip_illegal"] = info.get("skip_illegal", 0) + 1
             continue
         out.add((r[0], r[1], r[2], g))
     return out
@@ -264,8 +267,9 @@ def _needs_dataset(op):
     return op["src"] != 0 or op["dst"] != 0
 
 
-def spec_op(op, G, eff_union, single_graph, fresh):
+def spec_op(op, G, eff_union, single_graph, fresh, info=None):
     """G : {graph name (0 = default): set of triples}; returns the new G (never mutates)."""
+    info = info if info is not None else {}
     if single_graph and _needs_dataset(op):
         raise SpecError("a plain Graph has no named graphs")
     G = {g: set(ts) for g, ts in G.items()}
@@ -301,15 +305,21 @@ def spec_op(op, G, eff_union, single_graph, fresh):
             else:
                 dflt = graph(0)
         sols = spec_where(op["where"], op.get("filter"), dflt, nmd)
-        dels, inss = set(), set()
+        dels, inss, per = set(), set(), []
         for mu in sols:
-            if op.get("del") is not None:
-                dels |= spec_instantiate(op["del"], mu, w, fresh)
-        for mu in sols:
-            if op.get("ins") is not None:
-                inss |= spec_instantiate(op["ins"], mu, w, fresh)
+            d = spec_instantiate(op["del"], mu, w, fresh, info) if op.get("del") is not None else set()
+            per.append([d, set()])
+            dels |= d
+        for j, mu in enumerate(sols):
+            i = spec_instantiate(op["ins"], mu, w, fresh, info) if op.get("ins") is not None else set()
+            per[j][1] = i
+            inss |= i
         apply(dels, inss)
-        G["_sols"] = len(sols)
+        info["sols"] = info.get("sols", 0) + len(sols)
+        info["where_" + ("0" if not sols else "1" if len(sols) == 1 else "2+")] = \
+            info.get("where_" + ("0" if not sols else "1" if len(sols) == 1 else "2+"), 0) + 1
+        if any(per[a][1] & per[b][0] for a in range(len(per)) for b in range(len(per)) if a != b):
+            info["overlap_across_solutions"] = info.get("overlap_across_solutions", 0) + 1
     elif k in ("clear", "drop"):
         t = op["t"]
         names = [0] if t == "DEFAULT" else [g for g in G if g != 0] if t == "NAMED" else list(G) if t == "ALL" else [t]
@@ -336,18 +346,19 @@ def spec_request(case):
         G.setdefault(g, set())
     counter = itertools.count(1000)
     eff_union = case["union"] and case["api"] in ("cg", "cgi", "dsu")
-    failed, nsol = False, 0
+    failed, info = False, {}
     before = {(s, p, o, g) for g, ts in G.items() for (s, p, o) in ts}
     for op in case["ops"]:
         try:
-            G = spec_op(op, G, eff_union, case["api"] == "graph", lambda: next(counter))
-            nsol += G.pop("_sols", 0)
+            G = spec_op(op, G, eff_union, case["api"] == "graph", lambda: next(counter), info)
         except SpecError:
+            info["must_fail" + ("_silent" if op.get("silent") else "")] = 1
             if not op.get("silent"):
                 failed = True
                 break
     quads = {(s, p, o, g) for g, ts in G.items() for (s, p, o) in ts}
-    return quads, failed, nsol, quads != before
+    info["changed"] = int(quads != before)
+    return quads, failed, info
 
 
 # ------------------------------------------------------------------ canonical numbering of minted blank nodes
@@ -477,7 +488,8 @@ def run_impl(case):
 
     # ---- the property, decided on the implementation's behaviour
     viol = []
-    want, failed, nsol, changed = spec_request(case)
+    want, failed, info = spec_request(case)
+    nsol, changed = info.get("sols", 0), info["changed"]
     if failed != (err == "error"):
         viol.append(f"outcome: request {'must fail' if failed else 'must succeed'} but the implementation "
                     f"{'raised ' + errtext if err == 'error' else 'returned normally'}")
@@ -504,7 +516,7 @@ def run_impl(case):
                     f"left quads {show_quads(quads)} but the Update semantics give {show_quads(canon_int(want))}"
                     f" (extra {extra}, missing {missing})")
     stats = {"ops": len(case["ops"]), "api_" + api: 1, "union_" + str(bool(case["union"])): 1, "err_" + err: 1,
-             "solutions": nsol, "changed": int(changed), "minted": sum(1 for q in quads for x in q if x >= 1000)}
+             "minted": len({x for q in quads for x in q if x >= 1000}), **info}
     for o in case["ops"]:
         stats["op_" + o["k"]] = stats.get("op_" + o["k"], 0) + 1
         if o["k"] == "modify":
@@ -609,10 +621,19 @@ def _gen_case(rng, tier, i):
         return [rng.choice(subj), rng.choice(pred), rng.choice(obj)]
 
     init = []
-    for _ in range(rng.randint(0, 7)):
+    for _ in range(rng.choice([0, 1, 2, 3, 4, 4, 5, 6, 7, 8])):
         q = triple() + [rng.choice([0, 0] + filled)]
         if q not in init:
             init.append(q)
+    cyc = None
+    if rng.random() < 0.35:                       # a 2-cycle or a chain: one solution's insertion is another's deletion
+        a, b, c = rng.sample([1, 2, 3, 30], 3)
+        g = rng.choice([0, 0] + filled)
+        pr = rng.choice(pred)
+        cyc = (pr, g)
+        for q in ([[a, pr, b, g], [b, pr, a, g]] if rng.random() < 0.5 else [[a, pr, b, g], [b, pr, c, g]]):
+            if q not in init:
+                init.append(q)
     if init and rng.random() < 0.3:               # the same triple in two graphs
         q = list(rng.choice(init))
         q[3] = rng.choice([0] + filled)
@@ -628,10 +649,32 @@ def _gen_case(rng, tier, i):
     def pat_term(pool, pvar):
         return rng.choice(VARS) if rng.random() < pvar else rng.choice(pool)
 
-    def pattern(n, graphs):
-        out = []
+    def pattern(n, graphs, dflt_from=None):
+        """n triple patterns over `graphs`; mostly generalisations of triples that are there (so that the
+        pattern has solutions), a later pattern sharing a term (hence a variable) with an earlier one"""
+        out, names = [], {}
+
+        def var_for(term):
+            if term not in names:
+                names[term] = rng.choice([v for v in VARS if v not in names.values()] or VARS)
+            return names[term]
+
+        prev = None
         for _ in range(n):
-            out.append([pat_term(subj, 0.7), pat_term(pred, 0.3), pat_term(obj, 0.7), rng.choice(graphs)])
+            g = rng.choice(graphs)
+            if g == 0:
+                pool = [q for q in init if (q[3] in dflt_from if dflt_from is not None else (q[3] == 0 or union))]
+            else:
+                pool = [q for q in init if q[3] == g or kind(g) == "v" and q[3] != 0]
+            if pool and rng.random() < 0.8:
+                linked = [q for q in pool if prev and (set(q[:3]) & set(prev[:3]))]
+                q = rng.choice(linked) if linked and rng.random() < 0.7 else rng.choice(pool)
+                prev = q
+                out.append([var_for(q[0]) if rng.random() < 0.65 else q[0],
+                            var_for(q[1]) if rng.random() < 0.25 else q[1],
+                            var_for(q[2]) if rng.random() < 0.65 else q[2], g])
+            else:
+                out.append([pat_term(subj, 0.7), pat_term(pred, 0.3), pat_term(obj, 0.7), g])
         out.sort(key=lambda q: (q[3] != 0,))      # default triples first, blocks keep their order
         # equal graphs adjacent (one GRAPH block per graph)
         seen, res = [], []
@@ -717,31 +760,53 @@ def _gen_case(rng, tier, i):
     def gen_modify(gs):
         w = None
         using, named = [], []
+        likely = (filled + filled + anyg) if filled else anyg
         if not single:
             if rng.random() < 0.25:
-                w = rng.choice(anyg)
+                w = rng.choice(likely)
             if rng.random() < 0.2:
-                using = rng.sample(anyg, k=min(len(anyg), rng.randint(1, 2)))
+                using = list(dict.fromkeys(rng.choice(likely) for _ in range(rng.randint(1, 2))))
             if rng.random() < 0.12:
-                named = rng.sample(anyg, k=min(len(anyg), rng.randint(1, 2)))
+                named = list(dict.fromkeys(rng.choice(likely) for _ in range(rng.randint(1, 2))))
         wg = [0] if single else ([0, 0, 0] + anyg + ([44] if rng.random() < 0.4 else []))
         nw = rng.choice([0, 1, 1, 1, 2, 2])
         shape = rng.random()
-        where = pattern(nw, [rng.choice(wg)] if rng.random() < 0.6 else wg)
+        where = pattern(nw, [rng.choice(wg)] if rng.random() < 0.6 else wg,
+                        using if (using or named) else [w] if w else None)
         where = [[x if kind(x) != "b" else 42 for x in t[:3]] + [t[3]] for t in where]
         wvars = sorted({x for q in where for x in q if kind(x) == "v"})
         flt = None
         if wvars and rng.random() < 0.2:
-            flt = [rng.choice(wvars), rng.choice(["=", "!="]), rng.choice([1, 2, 3, 90])]
+            flt = [rng.choice(wvars), rng.choice(["=", "!=", "!="]), rng.choice([1, 2, 3, 90])]
         tg = [0] if single else ([0, 0, 0] + anyg + ([44, 44] if 44 in wvars else []))
         if not single and rng.random() < 0.15:
             tg = tg + [46] + wvars[:2]                      # GRAPH ?unbound { … }, GRAPH ?boundToAnything { … }
         d = i = None
-        if shape < 0.3 and nw:                     # overlap shapes: delete the matched triple, insert a permutation of it
-            q = where[0]
+        if shape < 0.35:                           # overlap shapes: delete the matched triple, insert a permutation of it
+            g = w0 = rng.choice([0, 0] + ([] if single else filled + [44]))
+            if using:
+                g = 0
+            pr = rng.choice(pred) if rng.random() < 0.8 else 43
+            if cyc and rng.random() < 0.7:
+                pr, g = cyc[0], (cyc[1] if not using else 0)
+                if using:
+                    using[0] = cyc[1] or using[0]
+            where = [[40, pr, 41, g]] + \
+                ([q for q in where[:1] if q[3] != 0 or g == 0] if rng.random() < 0.2 else [])
+            where = _group(where)
+            wvars = sorted({x for q in where for x in q if kind(x) == "v"})
+            if flt and flt[0] not in wvars:
+                flt = None
+            tg = [0] if single else ([0, 0, 0] + anyg + ([44, 44] if 44 in wvars else []))
+            q = where[0] if where[0][0] == 40 else next(x for x in where if x[0] == 40)
             d = [list(q)]
-            perm = rng.choice([(2, 1, 0), (0, 1, 2), (2, 1, 2), (0, 1, 0)])
-            i = [[q[perm[0]], q[1], q[perm[2]], q[3] if rng.random() < 0.7 else rng.choice(tg)]]
+            perm = rng.choice([(2, 1, 0), (2, 1, 0), (2, 1, 0), (0, 1, 2), (2, 1, 2), (0, 1, 0)])
+            i = [[q[perm[0]], q[1], q[perm[2]], q[3] if rng.random() < 0.8 else rng.choice(tg)]]
+            if rng.random() < 0.3:                 # fan-out: { ?x p ?y . ?x p ?z }, delete (x,y), insert (x,z)
+                q2 = [40, q[1], 42, q[3]]
+                where = _group(where + [q2])
+                wvars = sorted({x for t in where for x in t if kind(x) == "v"})
+                i = [list(q2)]
             if rng.random() < 0.3:
                 i.append([rng.choice(wvars or [1]), rng.choice(pred), rng.choice(obj), rng.choice(tg)])
             i = _group(i)
